@@ -112,6 +112,30 @@ Definition url_case (cab : bool) (base_path code_file : str) (debug_file did_raw
 From RM Require Import C17.UrlFull.
 Definition base_case (suffix rel : str) : Z * str := predict (server_base_path suffix) rel.
 
+(* [redirect_case]: a module WITHOUT debug file / id; the server answers the code-info request with a redirect whose
+   Location is [loc]; the requests locate_symbols makes: the code-info path, then — if the Location parses
+   (parse_location, a well-formed debug id) and breakpad_sym_lookup accepts the server-supplied name — the symbol file *)
+Definition redirect_case (base_path code_file : str) (cid_raw : option str) (loc : str) : list (Z * str) :=
+  let code_id := option_map code_id_new cid_raw in
+  let m0 := mk_module code_file None None code_id in
+  match g_code_info_breakpad_sym_lookup m0 with
+  | None => []
+  | Some p =>
+      predict base_path p ::
+      match parse_location loc with
+      | Some (dfp, idp) =>
+          match parse_breakpad idp with
+          | Some d =>
+              match g_lookup (mk_module code_file (Some dfp) (Some (breakpad_text d)) code_id) KBreakpadSym with
+              | Some l => [predict base_path (server_rel l)]
+              | None => []
+              end
+          | None => []
+          end
+      | None => []
+      end
+  end.
+
 (* ---- full reference resolution (C17/UrlFull.v), compared with the real url crate on raw references ----------
    [resolve_case]: (0, path, []) = the base's scheme and authority with this path; (1, scheme, authority text) =
    another authority; (2, scheme, rest) = a file: / non-special URL *)
